@@ -543,23 +543,56 @@ impl Tree {
             .lock(miner_lock.clone())
             .message(spec.message.pack())
             .build();
-        let mut cb = TransactionBuilder::default()
-            .input(CellInput::new_cellbase_input(number))
-            .witness(witness.as_bytes().pack());
+        let cb_input = if opts.cellbase_since_delta == 0 {
+            CellInput::new_cellbase_input(number)
+        } else {
+            CellInput::new(OutPoint::null(), (number as i64 + opts.cellbase_since_delta) as u64)
+        };
+        let mut cb = TransactionBuilder::default().input(cb_input);
+        cb = match opts.cellbase_bad_witness {
+            0 => cb.witness(witness.as_bytes().pack()),
+            1 => cb,
+            2 => cb.witness(Bytes::from(vec![1u8, 2, 3]).pack()),
+            _ => {
+                let bad_lock = miner_lock.clone().as_builder().hash_type(packed::Byte::new(0x7f)).build();
+                let w = CellbaseWitness::new_builder().lock(bad_lock).message(spec.message.pack()).build();
+                cb.witness(w.as_bytes().pack())
+            }
+        };
         let reward = self.reward_for_child_of(parent);
-        if let Some(r) = &reward {
+        let mut pay: Option<(u64, Script)> = reward.as_ref().map(|r| {
             let total = if opts.use_node_reward_quirk {
                 r.primary + r.secondary + r.committer + r.proposer_node_quirk
             } else {
                 r.total
             };
-            let total = (total as i128 + opts.reward_delta as i128) as u64;
-            let out = CellOutput::new_builder()
-                .capacity(Capacity::shannons(total))
-                .lock(r.lock.clone())
-                .build();
-            if occupied_shannons(&out, 0) <= total as u128 {
-                cb = cb.output(out).output_data(Bytes::new().pack());
+            ((total as i128 + opts.reward_delta as i128) as u64, r.lock.clone())
+        });
+        if pay.is_none() && opts.cellbase_force_output {
+            pay = Some((100_000_000_000, miner_lock.clone()));
+        }
+        if let Some((total, lock)) = pay {
+            let lock = opts.cellbase_lock_override.clone().unwrap_or(lock);
+            let data = Bytes::from(opts.cellbase_data.clone());
+            let mk = |c: u64| {
+                let mut b = CellOutput::new_builder().capacity(Capacity::shannons(c)).lock(lock.clone());
+                if let Some(t) = &opts.cellbase_type {
+                    b = b.type_(Some(t.clone()).pack());
+                }
+                b.build()
+            };
+            let out = mk(total);
+            if occupied_shannons(&out, data.len()) <= total as u128 || opts.cellbase_force_output {
+                if opts.cellbase_split && total > 2 * occupied_shannons(&out, 0) as u64 {
+                    let half = total / 2;
+                    cb = cb
+                        .output(mk(half))
+                        .output_data(data.clone().pack())
+                        .output(mk(total - half))
+                        .output_data(Bytes::new().pack());
+                } else {
+                    cb = cb.output(out).output_data(data.pack());
+                }
             }
         }
         let cellbase = cb.build();
@@ -568,6 +601,14 @@ impl Tree {
         let mut state = (*p.state).clone();
         let mut txs = vec![cellbase.clone()];
         txs.extend(spec.txs.iter().cloned());
+        if opts.extra_cellbase {
+            txs.push(
+                TransactionBuilder::default()
+                    .input(CellInput::new_cellbase_input(number))
+                    .witness(witness.as_bytes().pack())
+                    .build(),
+            );
+        }
         let mut fees = vec![];
         let mut freed: u128 = 0;
         let mut added: u128 = 0;
@@ -576,14 +617,15 @@ impl Tree {
         for (i, tx) in txs.iter().enumerate() {
             let mut in_cap: u128 = 0;
             for input in tx.inputs().into_iter() {
-                if i == 0 {
+                if i == 0 || tx.is_cellbase() {
                     continue;
                 }
                 let k = cell_key(&input.previous_output());
-                let cell = state
-                    .live
-                    .remove(&k)
-                    .ok_or_else(|| format!("tx {i} input not live in model: {}", input.previous_output()))?;
+                let cell = match state.live.remove(&k) {
+                    Some(c) => c,
+                    None if opts.allow_missing_inputs => continue,
+                    None => return Err(format!("tx {i} input not live in model: {}", input.previous_output())),
+                };
                 freed += occupied_shannons(&cell.output, cell.data.len());
                 let (maxw, interest) = self.withdraw_value(&cell, tx, parent)?;
                 in_cap += maxw as u128;
@@ -607,10 +649,10 @@ impl Tree {
                 );
             }
             if i > 0 {
-                if in_cap < out_cap {
+                if in_cap < out_cap && !(opts.allow_missing_inputs || tx.is_cellbase()) {
                     return Err(format!("tx {i} outputs exceed inputs"));
                 }
-                fees.push((in_cap - out_cap) as u64);
+                fees.push(in_cap.saturating_sub(out_cap) as u64);
             }
         }
 
@@ -639,6 +681,12 @@ impl Tree {
             ext[0] ^= 1;
         }
         ext.extend_from_slice(&spec.extension_extra);
+        if let Some(o) = &opts.extension_override {
+            ext = o.clone();
+        }
+        if opts.cellbase_not_first && txs.len() >= 2 {
+            txs.swap(0, 1);
+        }
 
         let mut bb = BlockBuilder::default()
             .version(0u32)
@@ -791,6 +839,30 @@ pub struct BuildOpts {
     pub dao_delta: [i64; 4],
     pub flip_chain_root: bool,
     pub no_extension: bool,
+    // ---- single-rule mutations of the cellbase / body (C03); every other commitment of the
+    // block (DAO field, roots, reward amount) stays consistent with the mutated body
+    /// pay the reward in two outputs
+    pub cellbase_split: bool,
+    /// non-empty output data on the cellbase output
+    pub cellbase_data: Vec<u8>,
+    /// give the cellbase output a type script
+    pub cellbase_type: Option<Script>,
+    /// cellbase input `since` = number + delta
+    pub cellbase_since_delta: i64,
+    /// 0 proper witness, 1 no witness, 2 garbage bytes, 3 lock with an unknown hash_type
+    pub cellbase_bad_witness: u8,
+    /// pay to this lock instead of the target's
+    pub cellbase_lock_override: Option<Script>,
+    /// create an output although nothing is finalised yet
+    pub cellbase_force_output: bool,
+    /// append a second cellbase-shaped transaction
+    pub extra_cellbase: bool,
+    /// put the cellbase second (needs one other transaction)
+    pub cellbase_not_first: bool,
+    /// raw extension bytes instead of chain root ‖ extra
+    pub extension_override: Option<Vec<u8>>,
+    /// inputs that are not live are taken as zero-capacity (double spends / unknown cells)
+    pub allow_missing_inputs: bool,
 }
 
 /// apply a block's cell changes to a state (used for genesis and for replays of foreign blocks)
